@@ -734,7 +734,7 @@ def register_funs(out, tree, misc_tree):
         env = dict(env)
         env[elem] = ("elem",)
         if idx is not None:
-            env[idx] = fold(("bin", "+", ("var", "k"), ("int", start)))
+            env[idx] = ("var", "k") if start == 0 else ("bin", "+", ("var", "k"), ("int", start))
         o = ex.block(list(loop.body), env, None)
         if mentions(o, {"raw", "reverse"}):
             raise Untr("the sub-register value depends on raw/reverse")
@@ -775,7 +775,7 @@ def register_funs(out, tree, misc_tree):
         env[acc] = ("var", "acc")
         env[elem] = ("elem",)
         if idx is not None:
-            env[idx] = fold(("bin", "+", ("var", "k"), ("int", start)))
+            env[idx] = ("var", "k") if start == 0 else ("bin", "+", ("var", "k"), ("int", start))
 
         def sub_get(ex_, a, k, env_):
             return ("var", "subVal")
